@@ -242,6 +242,89 @@ class AliasedViews(Fam):
         return f"{inp['kind']} n={inp['n']} dtype={inp['dt']}"
 
 
+def concurrent_records(ctx):
+    """jaccard / jaccarddist called from several Python threads at once, each thread on its own private arrays (all six integer types, signed ones
+    included), with a very short interpreter switch interval so that threads interleave inside the Python-level wrappers.  For every
+    (thread, pair, function, argument order) the record carries a deviating value if any call returned one, else the common value; TLC judges it."""
+    import sys
+    import threading
+    rng = np.random.default_rng(ctx.seed + 202)
+    nthreads = 6
+    secs = 4 if ctx.tier == 'quick' else 25
+    work = []
+    for t in range(nthreads):
+        pairs = []
+        for j in range(6):
+            dta, dtb = [('i2', 'i4'), ('i8', 'i2'), ('i4', 'u2'), ('u8', 'i8'), ('i4', 'i4'), ('u4', 'i2')][(t + j) % 6]      # signed types on at least one side
+            pool = [int(x) for x in rng.choice(3000, size=40, replace=False)]
+            A = sorted(pool[:int(rng.integers(1, 25))]); B = sorted(pool[int(rng.integers(0, 15)):int(rng.integers(16, 40))])
+            pairs.append((A, B, dta, dtb, np.array(A, dtype=dta), np.array(B, dtype=dtb)))
+        work.append(pairs)
+    seen = [[dict(dab=set(), dba=set(), jab=set(), jba=set()) for _ in pairs] for pairs in work]
+    errors = []
+    stop = threading.Event()
+
+    def body(t):
+        try:
+            while not stop.is_set():
+                for j, (A, B, dta, dtb, a, b) in enumerate(work[t]):
+                    s = seen[t][j]
+                    s['dab'].add(float(jaccarddist(a, b))); s['dba'].add(float(jaccarddist(b, a)))
+                    s['jab'].add(float(jaccard(a, b))); s['jba'].add(float(jaccard(b, a)))
+        except Exception as e:
+            errors.append(f'{type(e).__name__}: {e}'[:100])
+
+    old = sys.getswitchinterval()
+    sys.setswitchinterval(1e-5)
+    try:
+        threads = [threading.Thread(target=body, args=(t,)) for t in range(nthreads)]
+        for th in threads:
+            th.start()
+        import time
+        time.sleep(secs)
+        stop.set()
+        for th in threads:
+            th.join()
+    finally:
+        sys.setswitchinterval(old)
+    recs, inputs = [], []
+    for t in range(nthreads):
+        for j, (A, B, dta, dtb, a, b) in enumerate(work[t]):
+            ra, rb = ranks(A, B)
+            base = dict(dab=float(jaccarddist(a, b)), dba=float(jaccarddist(b, a)), jab=float(jaccard(a, b)), jba=float(jaccard(b, a)))      # alone, afterwards
+            pick = {k: next((v for v in sorted(seen[t][j][k]) if v != base[k]), base[k]) for k in base}
+            r = dict(op='set', a=ra, b=rb, dta=dta, dtb=dtb, ok=not errors, err='; '.join(errors)[:200])
+            r.update(dab=f32_fields(np.float32(pick['dab'])), dba=f32_fields(np.float32(pick['dba'])), jab=fix47(pick['jab']), jba=fix47(pick['jba']))
+            recs.append(r)
+            inputs.append(dict(thread=t, pair=j, a=A, b=B, dta=dta, dtb=dtb, distinct={k: len(v) for k, v in seen[t][j].items()}))
+    return inputs, recs
+
+
+class Concurrent(Fam):
+    name = 'concurrent-callers'
+    exhaustive = False
+    procs = 0
+    rule = ('6 Python threads calling jaccard / jaccarddist in a loop on private arrays (6 pairs each, signed integer types on at least one side) with a 10 microsecond '
+            'switch interval: every value returned under concurrency must be the correctly rounded ratio of that thread\'s own pair')
+
+    def nontrivial(self, inp, rec):
+        return core.short_hash([inp['thread'], inp['pair']])
+
+    def describe(self, inp, rec):
+        return f"thread {inp['thread']} pair {inp['pair']} dtypes={inp['dta']},{inp['dtb']} distinct values seen={inp['distinct']}"
+
+    def corrupt(self, rec):
+        return Fam.corrupt(self, rec)
+
+
+def run_concurrent(ctx):
+    fam = Concurrent()
+    inputs, recs = concurrent_records(ctx)
+    table = {core.canon(i): r for i, r in zip(inputs, recs)}
+    fam.execute = lambda inp: table[core.canon(inp)]
+    core.run_family(ctx, fam, inputs=inputs)
+
+
 class LongIntervals(Fam):
     """signatures of 2^12 .. 2^20 (thorough 2^23) k-mers, lengths at and next to powers of two: the sets are unions of intervals, shipped to
     TLC as interval lists (cardinalities by arithmetic)"""
@@ -300,6 +383,7 @@ def run(ctx):
            note='constant-level: F32Div brackets / F32OneMinus lemmas (ASSUMEs)')
     for F in FAMILIES:
         core.run_family(ctx, F())
+    run_concurrent(ctx)
     ctx.assumptions += ['set elements are shipped as ranks in the sorted union (injective, order preserving)',
                         'float32 results are decomposed into (zero, exponent, significand) with struct; TLC computes the '
                         'correctly rounded quotient by long division',
